@@ -102,6 +102,8 @@ var stdDefs = []ContentDef{
 	{ID: "a4", Kind: "image", MT: "oci.image", Cfg: "b1", CfgMT: types.MediaTypeOCI1Empty, Layers: []string{}, Subject: "nx", AT: "at1"},
 	{ID: "a5", Kind: "index", MT: "oci.index", Children: []string{}, Subject: "m1", AT: "at3", Annot: true},
 	{ID: "a6", Kind: "image", MT: "oci.image", Cfg: "b1", CfgMT: types.MediaTypeOCI1Empty, Layers: []string{}, Subject: "x1", AT: "at1"},
+	// an index that is a referrer of m1 and lists a4, itself a referrer of a subject that never exists
+	{ID: "a12", Kind: "index", MT: "oci.index", Children: []string{"a4"}, Subject: "m1", AT: "at3"},
 	{ID: "a7", Kind: "image", MT: "oci.image", Cfg: "b1", CfgMT: types.MediaTypeOCI1Empty, Layers: []string{"b3"}, Subject: "m2", AT: "at1"},
 	{ID: "a9", Kind: "image", MT: "oci.image", Cfg: "b1", CfgMT: types.MediaTypeOCI1Empty, Layers: []string{"b2"}, Subject: "m1", AT: "at1"},
 	{ID: "a10", Kind: "image", MT: "oci.image", Cfg: "b1", CfgMT: types.MediaTypeOCI1Empty, Layers: []string{}, Subject: "m1", AT: "at1", Big: 700},
